@@ -49,6 +49,7 @@ type Report struct {
 	WallS      float64     `json:"wall_s"`
 	MemoMisses int         `json:"reference_evaluations"`
 	Hashes     []string    `json:"hashes,omitempty"`
+	RaceCounts []int       `json:"race_counts,omitempty"`
 	Harness    string      `json:"harness_fault,omitempty"`
 	Rule       string      `json:"rule"`
 }
@@ -161,7 +162,15 @@ func main() {
 					h = core.MixString(h, r.R.Key()+"|"+r.ErrKind+fmt.Sprint(r.ErrNil, r.ErrInjected))
 				}
 			}
-			rep.Hashes = append(rep.Hashes, fmt.Sprintf("%d:%016x:%016x:%d:%d", idx, rr.Out.LogHash, h, rr.Out.Races, len(fails)))
+			nonRace := 0
+			for _, f := range fails {
+				if f.Class != "race" {
+					nonRace++
+				}
+			}
+			// race-report counts are informational: ThreadSanitizer may miss (never invent) a report
+			rep.Hashes = append(rep.Hashes, fmt.Sprintf("%d:%016x:%016x:%d", idx, rr.Out.LogHash, h, nonRace))
+			rep.RaceCounts = append(rep.RaceCounts, rr.Out.Races)
 		}
 		if len(fails) > 0 {
 			rep.Failures = append(rep.Failures, Replay{Property: *prop, Seed: *seed, Subseed: strconv.FormatUint(sub, 10),
